@@ -509,6 +509,12 @@ fn exec(it: &mut Interp, t: &[&str]) -> Result<String, String> {
                 },
                 Ordering::SeqCst,
             ),
+            "layout" => {
+                // process-wide and only before the VM layout is first used (see comp::layout::cfg)
+                if !vvm::comp::layout::cfg(&["layout", t[2]]) {
+                    return Err("err bad-layout".into());
+                }
+            }
             "opt" => {
                 need(3)?;
                 it.cfg.extra.push((t[2].to_string(), t[3].to_string()))
@@ -881,6 +887,22 @@ fn exec(it: &mut Interp, t: &[&str]) -> Result<String, String> {
                 })
                 .collect();
             Ok(format!("spaces {}", sp.join(",")))
+        }
+        "regions" => {
+            // EXTENSION: per space `name:descriptorhex:head:start+chunks/start+chunks…` — the region list of
+            // every discontiguous space walked from its page resource's own head through VM_MAP (≤ 4096
+            // regions; `-` = empty list; contiguous spaces print `name:descriptorhex:contig`)
+            let v: Vec<String> = mmtk::verif::layout::regions::space_regions(mmtk, 4096)
+                .iter()
+                .map(|s| {
+                    if s.contiguous {
+                        return format!("{}:{:x}:contig", s.name, s.descriptor);
+                    }
+                    let rs: Vec<String> = s.regions.iter().map(|(a, n)| format!("{:x}+{}", a.as_usize(), n)).collect();
+                    format!("{}:{:x}:{:x}:{}", s.name, s.descriptor, s.head.as_usize(), if rs.is_empty() { "-".to_string() } else { rs.join("/") })
+                })
+                .collect();
+            Ok(format!("regions avail={} {}", mmtk::verif::layout::regions::available_chunks(), v.join(" ")))
         }
         "allocmap" => {
             need(1)?;
